@@ -366,6 +366,49 @@ def build(thorough):
     return tab, gens, cases, metas, reqs
 
 
+EMPTY_SHAPES = ["struct S;", "struct S();", "struct S {}", "enum S {}", "enum S { A() }", "enum S { A {} }", "enum S { A(), B {}, Cc }", "enum S { A(H<(), 1>), B() }",
+                "enum S { A { x: H<(), 1> }, B {} }", "enum S { A(), B() }", "enum S { Cc, A {} }", "union S { a: u8 }"]
+PREREQ = {"Error": "#[derive(Debug, derive_more::Display)] ", "Sum": "#[derive(derive_more::Add)] ", "Product": "#[derive(derive_more::Mul)] #[mul(forward)] ",
+          "DerefMut": "#[derive(derive_more::Deref)] ", "IndexMut": "#[derive(derive_more::Index)] "}
+PREREQ_REQ = {"Error": ("Display", ""), "Sum": ("Add", ""), "Product": ("Mul", "#[mul(forward)] "), "DerefMut": ("Deref", ""), "IndexMut": ("Index", "")}
+
+
+def part_accepted_compiles(chk, thorough):
+    """Degenerate shapes (no fields at all, written `;`, `()` or `{}`; enums with no or only empty variants; unions) are where the
+    documentation says least.  Whatever a derive does with them, it must be one of two things: a diagnostic, or code that
+    compiles - every (derive, shape) the expander ACCEPTS in-process is compiled."""
+    derives = sorted(table())
+    pairs = [(d, it) for d in derives for it in EMPTY_SHAPES]
+    res = svc([{"derive": d, "item": it} for d, it in pairs])
+    # the derive whose impl the subject builds on must accept the shape too, or there is nothing to compile against
+    pre = svc([{"derive": PREREQ_REQ[d][0], "item": PREREQ_REQ[d][1] + it} if d in PREREQ_REQ else {"derive": "Debug", "item": it} for d, it in pairs])
+    cases = []
+    for (d, it), r, pr in zip(pairs, res, pre):
+        chk.count(states=1, transitions=1)
+        if r["k"] != "ok":
+            chk.outcome("degenerate-diagnosed")
+            continue
+        if pr["k"] != "ok":
+            chk.outcome("degenerate-prerequisite-derive-diagnosed")
+            continue
+        src = "%s#[derive(derive_more::%s)] %s" % (PREREQ.get(d, ""), d, it)
+        cases.append(Case("g%d" % len(cases), "#[allow(unused_imports)] use super::*;\n" + src, has_run=False, meta=dict(derive=d, src=src, twin=it)))
+    eng = CompileEngine("C01G", header=HEADER, prelude=PRELUDE, mode="check", per_bin=max(20, len(cases) // 16 + 1))
+    results = eng.run_cases(cases)
+    for c in cases:
+        r = results[c.cid]
+        chk.count(states=1, transitions=1)
+        if r.compile == "ok":
+            chk.outcome("degenerate-accepted-compiles")
+            continue
+        chk.outcome("degenerate-accepted-%s" % r.compile)
+        msg = re.sub(r"g\d+::", "", r.diags[0]["message"]) if r.diags else "?"
+        chk.violation("rustc: derive(%s) accepts a degenerate shape but the expansion %s: %s" % (c.meta["derive"], "does not compile" if r.compile == "error" else "warns", re.sub(r"`[^`]*`", "`..`", msg)[:80]),
+                      c.meta["src"], "; ".join(re.sub(r"g\d+::", "", d["message"]) for d in r.diags[:4]) + "\n" + (r.diags[0]["rendered"][:900] if r.diags else ""))
+    chk.part("degenerate_shapes", shapes=EMPTY_SHAPES, derives=len(derives), pairs=len(pairs), accepted_and_compiled=len(cases),
+             oracle="accepted in-process => compiles under #![deny(warnings)]; a diagnostic is the other allowed outcome (totality itself is C18)")
+
+
 def run(chk, tier):
     thorough = tier == "thorough"
     tab, gens, cases, metas, reqs = build(thorough)
@@ -421,6 +464,7 @@ def run(chk, tier):
             feat.append("generic")
         chk.violation("rustc: derive(%s) %s [%s]: %s" % (c.meta["derive"], "does not compile" if r.compile == "error" else "warns", ",".join(feat), gen_msg),
                       c.meta["src"], "; ".join(re.sub(r"c\d+::", "", d["message"]) for d in own[:4]) + "\n" + own[0]["rendered"][:900])
+    part_accepted_compiles(chk, thorough)
     chk.part("engine", bins_built=eng.bins_built, rounds=eng.rounds, build_s=round(eng.build_s, 1), failing_cases_rechecked_against_control_twin=len(failing))
     chk.assumptions += ["supported shapes / attribute modes per derive are transcribed from impl/doc/*.md (props/c01.py table)",
                         "the carrier type H<X, N> uses every declared parameter and implements every trait any derive needs, so 'field types meet the documented trait requirements' holds by construction",
